@@ -111,4 +111,5 @@ VH_FAMILY(trafo)
   default: trafo_case<Shape::Simplex<3>>(c); break;
   }
 }
+VH_FAMILY(o3d) { c15::run_o3d_family(c); }
 int main(int argc, char** argv) { FEAT::Runtime::ScopeGuard guard(argc, argv); return vh::main_impl(argc, argv); }
